@@ -5,6 +5,7 @@ package cl
 import (
 	"math"
 	"math/big"
+	"math/bits"
 
 	"github.com/ohler55/slip"
 )
@@ -59,7 +60,12 @@ func (f *Lcm) Call(s *slip.Scope, args slip.List, depth int) slip.Object {
 		if i == 0 { // first one
 			z = num
 		} else {
-			z = z * num / gcd(z, num)
+			q := z / gcd(z, num)
+			hi, lo := bits.Mul64(uint64(q), uint64(num))
+			if hi != 0 || math.MaxInt64 < lo {
+				return bigLcm(s, args, depth)
+			}
+			z = slip.Fixnum(lo)
 		}
 	}
 	return z
